@@ -131,6 +131,17 @@ def gen(tier, seed, shard, nshards):
             isint = lambda d: d.startswith("int") or d.startswith("uint")
             W = (np.abs(gmat.weighted(rng, out, "int")) if dW.startswith("uint") else gmat.weighted(rng, out, "int")).astype(dW) if isint(dW) else \
                 (gmat.weighted(rng, out, "int") * 0.5).astype(dW)
+            big = {"int8": (8, 13), "uint8": (12, 21), "int16": (150, 251), "float16": (100, 301), "int32": (40000, 60001)}.get(dW)
+            if big is not None and (k // 8) % 2 == 1 and p >= 3:
+                # weights near the limit of a narrow type: every single weight fits, but the product along a path of two edges does not
+                # (12*12 > 127, 16*16 = 256, 200*200 > 32767, 300*300 > 65504, 50000*50000 > 2^31)
+                p = min(p, 4)
+                out = gmat.random_dag_masks(rng, p, density=0.9)
+                mag = rng.integers(big[0], big[1], size=(p, p))
+                sgn = 1 if dW.startswith("uint") else rng.choice([-1, 1], size=(p, p))
+                W = (gmat.to_np(out) * mag * sgn).astype(dW)
+            elif dW == "float32" and (k // 8) % 2 == 1:
+                W = (gmat.to_np(out) * rng.integers(1, 30, size=(p, p)) * 0.1).astype(dW)       # not exactly representable products
             means = rng.integers(0 if dm.startswith("uint") else -4, 5, p).astype(dm) if isint(dm) else (rng.integers(-8, 9, p) * 0.25).astype(dm)
             variances = rng.integers(0, 4, p).astype(dv) if isint(dv) else (rng.integers(0, 9, p) * 0.25).astype(dv)
             d = _random_interventions(rng, p, scalar_rate=0.4)
